@@ -5,6 +5,8 @@ import (
 	"strings"
 	"time"
 
+	"github.com/spf13/pflag"
+
 	"github.com/form3tech-oss/f1/v2/internal/trigger/ramp"
 	"github.com/form3tech-oss/f1/v2/internal/trigger/staged"
 )
@@ -36,6 +38,49 @@ func init() {
 			outs[i] = rates.Rate(baseTime.Add(time.Duration(q)))
 		}
 		return fmt.Sprintf("%d %s", int64(rates.Duration), intsTok(outs))
+	})
+	// bstaged <stages string hex> <queries> — the staged *builder* (flags --stages/--iterationFrequency/--distribution
+	// none), its assembled rate function probed at the query offsets -> <durationNs> <rates> | err
+	register("bstaged", func(a []string) string {
+		b := staged.Rate()
+		fs := pflag.NewFlagSet("verif", pflag.ContinueOnError)
+		fs.AddFlagSet(b.Flags)
+		if err := fs.Parse([]string{"--stages", unhex(a[0]), "--iterationFrequency", "1s", "--distribution", "none"}); err != nil {
+			return "err"
+		}
+		trig, err := b.New(fs)
+		if err != nil {
+			return "err"
+		}
+		qs := parseInts(a[1])
+		outs := make([]int, len(qs))
+		for i, q := range qs {
+			outs[i] = trig.DryRun(baseTime.Add(time.Duration(q)))
+		}
+		return fmt.Sprintf("%d %s", int64(trig.Duration), intsTok(outs))
+	})
+	// bramp <startRate> <endRate> <unitNs> <rampDurNs> <maxDurNs> <queries> — the ramp *builder* on
+	// `--start-rate --end-rate --ramp-duration --max-duration --distribution none` -> <rates> | err
+	register("bramp", func(a []string) string {
+		b := ramp.Rate()
+		fs := pflag.NewFlagSet("verif", pflag.ContinueOnError)
+		fs.AddFlagSet(b.Flags)
+		fs.DurationP("max-duration", "d", time.Second, "")
+		args := []string{"--start-rate", a[0] + "/" + a[2] + "ns", "--end-rate", a[1] + "/" + a[2] + "ns",
+			"--ramp-duration", a[3] + "ns", "--max-duration", a[4] + "ns", "--distribution", "none"}
+		if err := fs.Parse(args); err != nil {
+			return "err"
+		}
+		trig, err := b.New(fs)
+		if err != nil {
+			return "err"
+		}
+		qs := parseInts(a[5])
+		outs := make([]int, len(qs))
+		for i, q := range qs {
+			outs[i] = trig.DryRun(baseTime.Add(time.Duration(q)))
+		}
+		return intsTok(outs)
 	})
 	// ramp <startRate> <endRate> <unitNs> <durationNs> <queries> -> <durationNs> <intervalNs> <rates> | err
 	register("ramp", func(a []string) string {
